@@ -8,6 +8,7 @@ open Model
 open Vio
 
 let i = int_of_nat
+let i_ = int_of_nat
 let n_ = nat_of_int
 
 (* tolerance for values that went through double rounding (divisions by N are not dyadic) *)
@@ -247,6 +248,109 @@ let judge _id (c : cursor) (r : cursor) : bool * string =
     let tag = Printf.sprintf "mdp%s%s%s%s" ek (if !nincr > 0 then (if all_pre then "+incr_pre" else "+incr_wild") else "") (if !sawreset then "+reset" else "")
         (if !nrec >= 10000 then "+x10000" else "") in
     (nt, tag)
+  | "coop" ->
+    let sSl = next_nats c in let sAl = next_nats c in
+    let nf = List.length sSl in let na = List.length sAl in
+    let par = List.map (fun _ -> let ag = next_nats c in let k = next_int c in
+                         let fs = List.init k (fun _ -> next_nats c) in (ag, fs)) sSl in
+    let g = { cgS = sSl; cgA = sAl; cgPar = par } in
+    let sizes = Array.init nf (fun i -> i_ (cg_size g (n_ i))) in
+    let ncol = Array.of_list (List.map i_ sSl) in
+    let e = ref (cexp_new g) in
+    let hist_rev : crec list ref = ref [] in
+    let hlen = ref 0 in
+    let esite = "Factored::MDP::CooperativeExperience" and msite = "Factored::MDP::CooperativeMaximumLikelihoodModel" in
+    let models : (cml ref * (int * int, unit) Hashtbl.t * (int * int, unit) Hashtbl.t) array ref = ref [||] in  (* model, synced now, ever synced *)
+    let last_ids = ref (List.init nf (fun _ -> O)) in
+    let nrec = ref 0 and nreset = ref 0 and nsync = ref 0 in
+    let proj i = List.rev_map (cproj g (n_ i)) !hist_rev in      (* order restored: rev_map of the reversed list *)
+    (* statistics of one row against the raw history (O) and the model (C) *)
+    let judge_row_stats what i id (vis : (int * int) list) (iN : int) (iR : float) (iM : float) hi =
+      let l = row_rewards hi (n_ id) in
+      List.iter (fun (v, x) -> let w = i_ (row_count hi (n_ id) (n_ v)) in
+                  if x <> w then oracle_fail "coop_welford_exact" (esite ^ "::record") (Printf.sprintf "%s: node %d row %d: visits(value %d)=%d but history has %d" what i id v x w)) vis;
+      if iN <> List.length l then oracle_fail "coop_welford_exact" (esite ^ "::record") (Printf.sprintf "%s: node %d row %d: visit sum %d but %d records" what i id iN (List.length l));
+      if not (closef iR (mean_x l)) then oracle_fail "coop_welford_exact" (esite ^ "::record") (Printf.sprintf "%s: node %d row %d: reward %h, mean of history %s" what i id iR (string_of_q (mean_x l)));
+      if not (closef iM (m2_x l)) then oracle_fail "coop_welford_exact" (esite ^ "::record") (Printf.sprintf "%s: node %d row %d: M2 %h, history gives %s (visit sum %d)" what i id iM (string_of_q (m2_x l)) iN);
+      let x = cnode !e (n_ i) in
+      List.iter (fun (v, y) -> if y <> i_ (get2 O x.r_vis (n_ id) (n_ v)) then disagree "coop_counts" (esite ^ "::record") "visits differ") vis;
+      if iN <> i_ (get2 O x.r_vis (n_ id) (n_ ncol.(i))) then disagree "coop_counts" (esite ^ "::record") "visit sum differs";
+      if not (closef iR (List.nth x.r_avg id)) then disagree "coop_mean" (esite ^ "::record") "mean differs";
+      if not (closef iM (List.nth x.r_m2 id)) then disagree "coop_m2" (esite ^ "::record") "M2 differs" in
+    let judge_exp_dump what =
+      let iT = next_int r in
+      if iT <> !hlen then oracle_fail "coop_welford_exact" (esite ^ "::record") (Printf.sprintf "%s: timesteps=%d but %d records since reset" what iT !hlen);
+      for i = 0 to nf - 1 do
+        let hi = proj i in
+        for id = 0 to sizes.(i) - 1 do
+          let vis = List.init ncol.(i) (fun v -> (v, next_int r)) in
+          let iN = next_int r in let iR = next_f r in let iM = next_f r in
+          judge_row_stats what i id vis iN iR iM hi
+        done
+      done in
+    let judge_model k =
+      let (m, synced, ever) = (!models).(k) in
+      for i = 0 to nf - 1 do
+        let hi = proj i in
+        for j = 0 to sizes.(i) - 1 do
+          let probs = List.init ncol.(i) (fun _ -> next_f r) in let iR = next_f r in
+          if Hashtbl.mem synced (i, j) then begin
+            let l = row_rewards hi (n_ j) in let tot = List.length l in
+            List.iteri (fun v p -> let f = q_of_ints (i_ (row_count hi (n_ j) (n_ v))) tot in
+                         if not (closef p f) then oracle_fail "coop_sync_is_empirical" (msite ^ "::syncRow") (Printf.sprintf "model %d node %d row %d: P(%d)=%h, empirical %s" k i j v p (string_of_q f))) probs;
+            if not (closef iR (mean_x l)) then oracle_fail "coop_sync_is_empirical" (msite ^ "::syncRow") (Printf.sprintf "model %d node %d row %d: reward %h, mean %s" k i j iR (string_of_q (mean_x l)))
+          end else if not (Hashtbl.mem ever (i, j)) then begin
+            List.iteri (fun v p -> if p <> (if v = 0 then 1.0 else 0.0) then oracle_fail "coop_unvisited_default" (msite ^ "::CooperativeMaximumLikelihoodModel") (Printf.sprintf "model %d node %d row %d never synced but P(%d)=%h" k i j v p)) probs;
+            if iR <> 0.0 then oracle_fail "coop_unvisited_default" (msite ^ "::CooperativeMaximumLikelihoodModel") "never-synced row has a reward"
+          end;
+          List.iteri (fun v p -> if not (closef p (List.nth (List.nth (List.nth !m.cm_tr i) j) v)) then disagree "coop_model_row" (msite ^ "::syncRow") (Printf.sprintf "model %d node %d row %d value %d" k i j v)) probs;
+          if not (closef iR (List.nth (List.nth !m.cm_rw i) j)) then disagree "coop_model_reward" (msite ^ "::syncRow") (Printf.sprintf "model %d node %d row %d" k i j)
+        done
+      done in
+    let total i j = List.length (row_rewards (proj i) (n_ j)) in
+    let mark k rows = let (_, synced, ever) = (!models).(k) in
+      List.iter (fun (i, j) -> if total i j > 0 then begin Hashtbl.replace synced (i, j) (); Hashtbl.replace ever (i, j) () end) rows in
+    let all_rows () = List.concat (List.init nf (fun i -> List.init sizes.(i) (fun j -> (i, j)))) in
+    let nops = next_int c in
+    for _n = 1 to nops do
+      match next c with
+      | "r" ->
+        let s = List.init nf (fun _ -> next_nat c) in let a = List.init na (fun _ -> next_nat c) in
+        let s1 = List.init nf (fun _ -> next_nat c) in let rw = List.init nf (fun _ -> next_q c) in
+        let o = CRecord (s, a, s1, rw) in
+        if not (cop_ok g o) then failwith "coop: generated record out of range";
+        e := cexp_step g !e o; hist_rev := (((s, a), s1), rw) :: !hist_rev; incr hlen; incr nrec;
+        let ids = List.init nf (fun i -> cg_id g (n_ i) s a) in
+        last_ids := ids;
+        let iids = List.init nf (fun _ -> next_int r) in
+        List.iteri (fun i id -> if id <> i_ (List.nth ids i) then disagree "coop_getId" "Factored::DDNGraph::getId" (Printf.sprintf "node %d: record() reports row %d, model %d" i id (i_ (List.nth ids i)))) iids;
+        Array.iter (fun (_, synced, _) -> List.iteri (fun i id -> Hashtbl.remove synced (i, i_ id)) ids) !models;
+        for i = 0 to nf - 1 do
+          let id = i_ (List.nth ids i) and v = i_ (List.nth s1 i) in
+          let iV = next_int r in let iN = next_int r in let iR = next_f r in let iM = next_f r in
+          judge_row_stats "after record" i id [(v, iV)] iN iR iM (proj i)
+        done;
+        let iT = next_int r in
+        if iT <> !hlen then oracle_fail "coop_welford_exact" (esite ^ "::record") "timesteps differ from the number of records"
+      | "z" ->
+        e := cexp_step g !e CReset; hist_rev := []; hlen := 0; incr nreset;
+        Array.iter (fun (_, synced, _) -> Hashtbl.reset synced) !models;
+        judge_exp_dump "after reset"
+      | "d" -> judge_exp_dump "dump"; Array.iteri (fun k _ -> judge_model k) !models
+      | "cm" -> let flag = next_int c <> 0 in
+        models := Array.append !models [| (ref (cml_ctor g !e flag), Hashtbl.create 8, Hashtbl.create 8) |];
+        let k = Array.length !models - 1 in
+        if flag then (mark k (all_rows ()); incr nsync); judge_model k
+      | "cy" -> let k = next_int c in let (m, _, _) = (!models).(k) in
+        m := cml_sync_all g !e !m; mark k (all_rows ()); incr nsync; judge_model k
+      | "cp" -> let k = next_int c in let (m, _, _) = (!models).(k) in
+        let s = List.init nf (fun _ -> next_nat c) in let a = List.init na (fun _ -> next_nat c) in
+        m := cml_sync_sa g !e !m s a; mark k (List.init nf (fun i -> (i, i_ (cg_id g (n_ i) s a)))); incr nsync; judge_model k
+      | "ci" -> let k = next_int c in let (m, _, _) = (!models).(k) in
+        m := cml_sync_ids g !e !m !last_ids; mark k (List.mapi (fun i id -> (i, i_ id)) !last_ids); incr nsync; judge_model k
+      | k -> failwith ("unknown op " ^ k)
+    done;
+    (!nrec > 1, Printf.sprintf "coop%s%s" (if !nreset > 0 then "+reset" else "") (if !nsync > 0 then "+model" else ""))
   | "svt" ->
     let sS = next_int c in let sA = next_int c in
     let nS = n_ sS and nA = n_ sA in
